@@ -32,8 +32,8 @@ const (
 )
 
 type absEnv struct {
-	vals  map[string]absVal // access path -> nil-ness / truth
-	conds map[string]absVal // substring of a condition expression -> truth
+	vals  map[string]absVal          // access path -> nil-ness / truth
+	conds map[string]absVal          // substring of a condition expression -> truth
 	atoms []func(v ssa.Value) absVal // semantic atoms: evaluate a condition from the case assumptions, or absUnknown
 }
 
